@@ -61,6 +61,8 @@ DayClauses(o) ==
           \o Cl("parts_of_DATE", IsN(r[22], c.y) /\ IsN(r[23], c.mo) /\ IsN(r[24], c.d) /\ IsN(r[25], Weekday(n, 2)))
           \* DAYS sees the same serial whether an argument is a date or that date's serial number
           \o Cl("DAYS_of_date_and_serial", IsN(r[26], n - nb) /\ IsN(r[27], n - nb) /\ IsN(r[28], n - nb))
+          \* a numbering type that arrives as a float holding 1, 2 or 3 is that type
+          \o Cl("WEEKDAY_float_type", IsN(r[29], Weekday(n, IF n % 2 = 1 THEN 2 ELSE 1)) /\ IsN(r[30], Weekday(n, IF n % 2 = 1 THEN 3 ELSE 2)))
 
 InstantClauses(o) ==
   LET c == [y |-> o.in.y, mo |-> o.in.mo, d |-> o.in.d]
